@@ -2,11 +2,12 @@
 From PGV Require Export Base.Bytes Base.GoStr Base.GoNum Base.Utf8.
 From PGV Require Export Extracted.SourceConst.
 From PGV Require Export Model.RuleText Model.Value Model.Clause Model.Rules Model.Walk Model.Explain.
-From PGV Require Export Spec.ExplainSpec Run.Run_Walk.
+From PGV Require Export Spec.RuleTextSpec Spec.ExplainSpec Run.Run_Walk.
 
 Inductive case :=
 | CW (w : Run_Walk.case)
 | CText (e : entry) (text : str)                    (* a call that produced exactly one clause: its full text *)
+| CCustom (msg text : str)                          (* a rule with the custom message msg (no label inside) produced this one-clause text *)
 | COnly (s : str) (out : str)                       (* GetOnlyExplainErr s = out *)
 | CExtract (cs : list sclause) (out : str).         (* GetOnlyExplainErr (render cs) = out *)
 
@@ -22,9 +23,15 @@ Definition check_model (c : case) : bool :=
   match c with
   | CW w => Run_Walk.check_model w
   | CText e text => match model_text e with Some t => str_eqb t text | None => false end
+  | CCustom _ _ => true
   | COnly s out => str_eqb (only_explain s) out
   | CExtract cs out => str_eqb (only_explain (render cs)) out
   end.
+
+(* the property's own words: the message verbatim, behind the Chinese label if it contains a CJK character
+   (U+4E00..U+9FA5) and the English label otherwise — decided on the message alone *)
+Definition custom_ending (msg : str) : str :=
+  (if existsb Spec.RuleTextSpec.is_cjk (decode msg) then ExplainZh else ExplainEn) ++ 32%N :: msg.
 
 (* the spec for a custom-message clause: path, echo, then label and message verbatim; the case
    carries them as a one-clause Labelled list and the same text must come back from the extractor *)
@@ -32,6 +39,7 @@ Definition check_spec (c : case) : bool :=
   match c with
   | CW w => Run_Walk.check_spec w
   | CText _ _ => true
+  | CCustom msg text => has_suffix text (custom_ending msg)
   | COnly _ _ => true
   | CExtract cs out => str_eqb (join ErrEndFlag (explanations cs)) out
   end.
